@@ -64,3 +64,8 @@ Definition pw_tkind_of_code (c : N) : tkind :=
 Definition pw_mk_tok (code : N) (data : str) (index : N) : item := ITok (pw_tkind_of_code code) data index.
 Definition pw_mk_err (is_limit : bool) (data : str) (index : N) : item :=
   IErr (if is_limit then ELimit else ELex) data index.
+
+(* lexer model and parser model composed: the observation for a SOURCE STRING and both limits *)
+From ApolloVerif Require Import Lex.Fun.
+Definition pw_run_src (e : pw_entry) (dbg : bool) (rl : N) (tl : option N) (s : str) : pw_obs :=
+  pw_run e dbg rl (match tl with Some n => lex_limited n s | None => lex_all s end).
